@@ -158,6 +158,7 @@ func TestProp(t *testing.T) {
 		rep.Floor("steps_refused_after_lifetime", 20)
 		rep.Floor("refresh_exchanges_observed", 50)
 		rep.Floor("steps_served_during_outage_after_consulting", 30)
+		rep.Floor("reissued_cookies_inspected_after_check", 100)
 	}
 	rep.Count("handler_panics", ps.ErrLog.Panics())
 	if rep.Finish() == "violated" {
@@ -234,15 +235,30 @@ func runHistory(rep *vh.Report, ps *sut.ProxyStack, stream string, idx int, r *r
 	signedIn := true
 	var desc []string
 
-	for si, p := range pl {
+	// steerAt: when the cookie re-issued after a completed check carries a next-check deadline LATER
+	// than the model allows (last check + validity TTL, or the token expiry the authenticator stated),
+	// the next step is placed inside that window, where a check is due by the statement but the
+	// cookie says otherwise; the ordinary clauses then judge what the proxy does there. (Added after
+	// seeded change C04i - next revalidation deadline spread by +-10% - slipped between the grid's gaps.)
+	steerAt := time.Duration(0)
+	for si := 0; si < len(pl); si++ {
+		p := pl[si]
 		if !signedIn {
 			break
 		}
 		tNext := b.VNow + p.gap
-		for near(tNext, lifetime, tokenExpiry, lastCheck+V) {
-			p.gap += 47 * time.Second
-			tNext = b.VNow + p.gap
+		if steerAt > b.VNow {
+			p.gap = steerAt - b.VNow
+			p.ans, p.target = aOK, targets[si%len(targets)]
+			tNext = steerAt
+			rep.Count("steps_steered_into_late_deadline_window", 1)
+		} else {
+			for near(tNext, lifetime, tokenExpiry, lastCheck+V) {
+				p.gap += 47 * time.Second
+				tNext = b.VNow + p.gap
+			}
 		}
+		steerAt = 0
 		b.Advance(p.gap)
 		tv := b.VNow
 		due := tv > tokenExpiry || tv > lastCheck+V
@@ -408,6 +424,23 @@ func runHistory(rep *vh.Report, ps *sut.ProxyStack, stream string, idx int, r *r
 		// re-issued cookie: lifetime bound never moves later; identity and binding unchanged
 		if b.Cookie != "" {
 			if s := b.Session(); s != nil {
+				if served && lastCheck == tv && signedIn {
+					rep.Count("reissued_cookies_inspected_after_check", 1)
+					modelNext := lastCheck + V
+					if tokenExpiry < modelNext {
+						modelNext = tokenExpiry
+					}
+					cookieNext := b.Virtual(s.ValidDeadline)
+					if re := b.Virtual(s.RefreshDeadline); re < cookieNext {
+						cookieNext = re
+					}
+					if cookieNext > modelNext+6*time.Second && modelNext+3*time.Second < lifetime {
+						steerAt = modelNext + (cookieNext-modelNext)/2
+						if si == len(pl)-1 {
+							pl = append(pl, plan{})
+						}
+					}
+				}
 				if lv := b.Virtual(s.LifetimeDeadline); lv > lifetime+2*time.Second {
 					rep.Violate(stream, idx, "lifetime-deadline-moved-later", fmt.Sprintf("re-issued cookie carries lifetime bound %v, login fixed %v", lv, lifetime), h)
 				}
